@@ -460,9 +460,27 @@ class StartStageHandler(
                     )
             return
         except ConcurrencyError:
-            # Another handler already claimed this stage (race condition with
-            # multiple upstream stages completing simultaneously). This is safe
-            # to ignore - the stage is already being processed.
+            # Losing the claim CAS normally means another handler claimed this
+            # stage (multiple upstream stages completing simultaneously): safe
+            # to ignore. But a writer that does not start the stage - e.g.
+            # SignalStage buffering a persistent signal into it - bumps the
+            # version too. If the row is still NOT_STARTED nobody claimed it;
+            # dropping this StartStage would wedge the workflow, so re-queue it
+            # to be retried on fresh data (as the mutex path does).
+            if claim_expected_phase == "NOT_STARTED":
+                fresh = self.repository.retrieve_stage(stage.id)
+                if fresh.status == WorkflowStatus.NOT_STARTED:
+                    retry_count = getattr(message, "retry_count", 0) or 0
+                    self.queue.push(
+                        StartStage(
+                            execution_type=message.execution_type,
+                            execution_id=message.execution_id,
+                            stage_id=message.stage_id,
+                            retry_count=retry_count + 1,
+                        ),
+                        self.retry_delay,
+                    )
+                    return
             logger.debug(
                 "Ignoring duplicate StartStage for %s (concurrent claim)",
                 stage.name,
